@@ -81,7 +81,7 @@ def _register():
             ctx.prove("roundtrip.flags", z3.BoolVal(back.flags_data == set(["VARARGS"] * va + ["VARKEYWORDS"] * vk + ["OPTIMIZED"])))
             ctx.prove("roundtrip.varnames_is_the_parameter_prefix_of_co_varnames", back.varnames.s == z3.SubSeq(v.s, 0, n))
             ctx.prove("post.varnames_length_is_total_parameter_count", z3.Length(back.varnames.s) == n)
-        harness("args.args_to_input(args_from_input).roundtrip[VARARGS=%d,VARKEYWORDS=%d]" % (va, vk), props=["C01", "C04"],
+        harness("args.args_to_input(args_from_input).roundtrip[VARARGS=%d,VARKEYWORDS=%d]" % (va, vk), props=["C01", "C04", "C03", "C05", "C06"],
                 functions=["code_data._args.args_from_input", "code_data._args.args_to_input", "code_data._args.args_to_varnames"], configs="any",
                 assumes=["WF: parameter names are non-empty strings"],
                 notes="argcount, posonlyargcount, kwonlyargcount, the two flags and the parameter prefix of co_varnames are reproduced, for all counts and lengths")(h_rt)
